@@ -1,0 +1,6 @@
+//go:build !verif
+
+package main
+
+// verifEvent is a no-op unless the server is built with the `verif` tag.
+func verifEvent(string, ...any) {}
